@@ -574,6 +574,21 @@ func TestC11(t *testing.T) {
 			rec.Sample(map[string]interface{}{"mode": c.Mode, "base": c.Base, "toml": c.TOML, "target": c.Target, "shape": c.Shape})
 		}
 	})
+	// (h) enumerated: revocation lists over the calendar x the CRL lint's option, against the option model
+	forEachCalendarCRL(func(ec engine.Case) {
+		if ec.Config == nil {
+			return
+		}
+		c := c11Case{Kind: ec.Kind, DER: ec.DER, Base: ec.Base, Mode: "option", TOML: *ec.Config, Target: "e_crl_next_update_invalid",
+			Vals: map[string]interface{}{"SubscriberCRL": strings.Contains(*ec.Config, "= true")}, Shape: strings.Join(ec.Ops, " ")}
+		rec.Eval()
+		rec.Class("calendar_crl")
+		if sig, msg := judgeC11(rec, c); msg != "" {
+			if rec.Report("c11", sig, msg, c) {
+				t.Fatalf("c11 %v: %s: %s", ec.Ops, sig, msg)
+			}
+		}
+	})
 	// (g) the three loaders agree: a document means the same whether it comes from a string, a reader or a
 	// file, whatever its size (comment preambles of 0 B ... 1 MiB, sizes around powers of two) - an option set
 	// after the preamble still changes its lint, and only that
